@@ -79,6 +79,87 @@ theorem C05_frame_bits (S : Schema) (fuel : Nat) (i : Impl) (ls : List Leaf) (e 
   have := packLeaves_length 0 e ls vs (generate_tiles S true fuel i ls e hg) hv
   omega
 
+
+/-- **multiplexing**: signal `k` is a multiplexer switch exactly when some leaf of the message
+names it in its `mux_signal` option; its multiplexer ids are `0 .. mux_count-1` of its own
+`mux_count` option and its switch is its own `mux_signal` option -/
+theorem C05_multiplexing (ls : List Leaf) (sigs : List DbcSignal) (dlc : Nat)
+    (h : makeSignals ls = .ok (sigs, dlc)) (k : Nat) (hk : k < ls.length) (hk' : k < sigs.length) :
+    (sigs[k].isMux = true ↔ ∃ l ∈ ls, (l.opts.lookup "mux_signal").bind xvalStr? = some ls[k].name) ∧
+    sigs[k].muxSignal = (ls[k].opts.lookup "mux_signal").bind xvalStr? ∧
+    sigs[k].muxIds = (match ls[k].opts.lookup "mux_count" with
+                      | some (.int n) => some (List.range n.toNat)
+                      | _ => none) ∧
+    sigs[k].name = replaceColons ls[k].name := by
+  unfold makeSignals at h
+  split at h
+  · cases h
+  · split at h
+    · cases h
+    · simp only [Except.ok.injEq, Prod.mk.injEq] at h
+      obtain ⟨rfl, _⟩ := h
+      refine ⟨?_, by simp, ?_, by simp⟩
+      · simp only [List.getElem_map, List.contains_iff_mem, List.mem_filterMap]
+      · simp only [List.getElem_map]
+        split <;> simp_all
+
+/-- **each bus file contains exactly the messages bound to that bus**: the generated description
+has one entry per distinct bus; the entry of bus `b` consists of the messages of exactly the CAN
+bindings that name `b`, in binding order (and is not empty); every CAN binding's bus has an entry -/
+theorem C05_bus_partition (S : Schema) (fuel : Nat) (out : List (String × List DbcMessage))
+    (h : expectedDbc S fuel = .ok out) :
+    (out.map (·.1)).Nodup ∧
+    (∀ b ms, (b, ms) ∈ out →
+      Pointwise (fun i m => dbcMessage S fuel i = .ok m)
+        ((S.impls.filter (·.protocol == "can")).filter (·.busName == b)) ms ∧ ms ≠ []) ∧
+    (∀ i ∈ S.impls, i.protocol = "can" → ∃ ms, (i.busName, ms) ∈ out) := by
+  unfold expectedDbc at h
+  cases hp : (S.impls.filter (·.protocol == "can")).mapM
+      (fun i => (dbcMessage S fuel i).map fun m => (i.busName, m)) with
+  | error e => simp [hp, bind, Except.bind] at h
+  | ok pairs =>
+    simp only [hp, bind, Except.bind, pure, Except.pure, Except.ok.injEq] at h
+    subst h
+    have hpw := mapM_ok_forall₂ _ _ _ hp
+    obtain ⟨hnd, hms, hall⟩ := groupByBus_partition pairs
+    -- along the pointwise relation: the pair's bus is the binding's bus, its message the binding's message
+    have hpair : ∀ (i : Impl) (p : String × DbcMessage),
+        (dbcMessage S fuel i).map (fun m => (i.busName, m)) = .ok p →
+        dbcMessage S fuel i = .ok p.2 ∧ p.1 = i.busName := by
+      intro i p hxy
+      cases hd : dbcMessage S fuel i with
+      | error e => simp [hd, Except.map] at hxy
+      | ok m =>
+        simp only [hd, Except.map, Except.ok.injEq] at hxy
+        subst hxy
+        exact ⟨rfl, rfl⟩
+    refine ⟨hnd, ?_, ?_⟩
+    · intro b ms hb
+      obtain ⟨h1, h2⟩ := hms b ms hb
+      refine ⟨?_, h2⟩
+      have hpw' := hpw.imp (R' := fun (i : Impl) (p : String × DbcMessage) =>
+          dbcMessage S fuel i = .ok p.2 ∧ (i.busName == b) = (p.1 == b))
+        (fun i p hxy => by obtain ⟨ha, hb⟩ := hpair i p hxy; exact ⟨ha, by rw [hb]⟩)
+      have hf := forall₂_filter (fun (i : Impl) (p : String × DbcMessage) => dbcMessage S fuel i = .ok p.2)
+        (·.busName == b) (·.1 == b) _ _ hpw'
+      rw [h1]
+      exact Pointwise.map_right (R := fun (i : Impl) (m : DbcMessage) => dbcMessage S fuel i = .ok m) (fun (p : String × DbcMessage) => p.2) hf
+    · intro i hi hcan
+      have himem : i ∈ S.impls.filter (·.protocol == "can") := by
+        simp [List.mem_filter, hi, hcan]
+      obtain ⟨p, hp1, hxy⟩ := hpw.exists_of_mem_left himem
+      obtain ⟨ms, hin⟩ := hall p hp1
+      exact ⟨ms, (hpair i p hxy).2 ▸ hin⟩
+
+/-! non-vacuity: two buses, bindings interleaved -/
+def C05_S2 : Schema := {
+  structs := [{ name := "A", fields := [{ name := "a", id := 0, ty := .u 8 }] }],
+  impls := [{ name := "A", protocol := "can", type := "A", fields := [("id", .int 10), ("bus", .str "x")], signals := [] },
+            { name := "B", protocol := "can", type := "A", fields := [("id", .int 11), ("bus", .str "y")], signals := [] },
+            { name := "C", protocol := "can", type := "A", fields := [("id", .int 12), ("bus", .str "x")], signals := [] }] }
+example : ((expectedDbc C05_S2 5).toOption.map fun out => out.map fun (b, ms) => (b, ms.map (·.name))) =
+    some [("x", ["A", "C"]), ("y", ["B"])] := by decide
+
 /-! non-vacuity: the schema of C04's example, as a DBC message -/
 def C05_S : Schema := {
   structs := [{ name := "A", fields := [{ name := "b", id := 2, ty := .i 16 },
